@@ -24,11 +24,11 @@ type C13Case struct {
 	Ops    []C13Op `json:"ops"`
 }
 
-var c13ValClasses = []string{"stack", "alias", "aliasS", "ptralias", "ptraliasNS", "ptrstack", "emptystack", "cond", "condstack", "condalias", "prim", "prim", "nil", "slice", "weirdptr"}
+var c13ValClasses = []string{"stack", "alias", "aliasS", "ptralias", "ptraliasNS", "ptrstack", "emptystack", "cond", "condstack", "condalias", "prim", "prim", "nil", "slice", "weirdptr", "nnstack", "fullstack"}
 
 func c13StackLike(class string) bool {
 	switch class {
-	case "stack", "alias", "aliasS", "ptralias", "ptraliasNS", "ptrstack", "emptystack":
+	case "stack", "alias", "aliasS", "ptralias", "ptraliasNS", "ptrstack", "emptystack", "nnstack", "fullstack":
 		return true
 	}
 	return false
@@ -63,6 +63,10 @@ func c13Value(class string, tag int) any {
 		return nil
 	case "slice":
 		return []string{"s" + itoa(tag)}
+	case "nnstack": // a Stack whose OWN no-nesting option is set: that is its business, not its holder's
+		return stackage.And().Push("in" + itoa(tag)).SetNoNesting(true)
+	case "fullstack":
+		return stackage.Or(1).Push("in" + itoa(tag)).SetReadOnly(true)
 	case "weirdptr":
 		return weirdPointer(tag) // typed nil pointers of depth 1..3 and live pointers to nil pointers: not Stacks
 	}
